@@ -15,7 +15,9 @@ FEATURES = ["custom_lro", "server_stream", "bidi_stream", "client_stream", "scal
             "paged_scalar", "paged_map", "delete_void", "keyword_rpc", "second_service", "resource_second", "repeated_scalars", "toplevel_collection", "no_http_methods",
             # deepening round 2: shapes the mock-value logic treats specially, and layouts
             "tree_map", "wkt_flattened", "any_struct_fields", "nested_enum", "second_file", "put_verb", "lro_empty", "deprecated_method",
-            "oneof_message", "enum_late_nonzero"]
+            "oneof_message", "enum_late_nonzero",
+            # round 10: request and response of DIFFERENT flavour (proto-plus message of the API vs plain pb2 message of a dependency)
+            "pb2_response", "pb2_request"]
 # NOT drawn at random while the finding is open (the generator raises RecursionError): only replayed from the corpus
 FINDING_FEATURES = ["tree_map_first"]
 
@@ -202,6 +204,30 @@ def build_files(case):
                  sigs=["parent"], lro=("google.protobuf.Empty", "MoveMeta"))
     if "deprecated_method" in F:
         s.method("OldGetBook", g, book, http=("get", "/v1/old/{name=shelves/*/books/*}"), sigs=["name"], deprecated=True)
+    if "pb2_response" in F:
+        # API-owned request with REQUIRED fields, response = a dependency's plain protobuf message (not Empty, not an LRO): the REST
+        # transport and every emitted REST test decide `.pb()` unwrapping per message, request and response separately
+        f.dep("google/iam/v1/policy.proto", "google/rpc/status.proto")
+        gp = f.msg("GetBookPolicyRequest"); gp.field("name", required=True); gp.field("version", "int32", required=True)
+        s.method("GetBookPolicy", gp, ".google.iam.v1.Policy", http=("get", "/v1/{name=shelves/*/books/*}:policy"), sigs=["name"])
+        xp = f.msg("ExportBookRequest"); xp.field("name", required=True); xp.field("format", required=True); xp.field("pretty", "bool")
+        s.method("ExportBook", xp, ".google.protobuf.Struct", http=("get", "/v1/{name=shelves/*/books/*}:export"), sigs=["name,format"])
+        tp = f.msg("TouchBookRequest"); tp.field("name", required=True); tp.field("reason", required=True)
+        s.method("TouchBook", tp, ".google.protobuf.Timestamp", http=("post", "/v1/{name=shelves/*/books/*}:touch"), body="*", sigs=["name"])
+        kp = f.msg("CheckBookRequest"); kp.field("parent", required=True); kp.field("book", "message", type_name=book, required=True)
+        s.method("CheckBook", kp, ".google.rpc.Status", http=("post", "/v1/{parent=shelves/*}/books:check"), body="book", sigs=["parent,book"])
+    if "pb2_request" in F:
+        # the reverse: the request is a dependency's pb2 message (its own REQUIRED annotations), the response is API-owned; the API
+        # declares GetIamPolicy itself when nothing else provides IAM methods
+        f.dep("google/iam/v1/policy.proto", "google/iam/v1/iam_policy.proto")
+        iam_free = "iam" not in case.get("mixins", []) and "add-iam-methods" not in case.get("opts", [])
+        # (the ads templates used to emit invalid Python for a FLATTENED pb2 request: repaired by e34ff2c, the combination is generated again)
+        flat = True
+        s.method("GetIamPolicy" if iam_free else "LookupBook", ".google.iam.v1.GetIamPolicyRequest", book,
+                 http=("get", "/v1/{resource=shelves/*/books/*}:lookup"), sigs=["resource"] if flat else [])
+        s.method("AuditBook", ".google.iam.v1.TestIamPermissionsRequest", book, http=("post", "/v1/{resource=shelves/*/books/*}:audit"), body="*",
+                 sigs=["resource,permissions"] if flat else [])
+        s.method("ReadPolicy", ".google.iam.v1.GetIamPolicyRequest", ".google.iam.v1.Policy", http=("post", "/v1/{resource=shelves/*}:readPolicy"), body="*")
     if "second_file" in F:
         # a second proto file of the same package holding messages the service file uses (cross-file types, two types modules)
         f2 = apigen.File("acme/lib/v1/common.proto", PKG)
@@ -379,7 +405,22 @@ def probe_flattened_mock_value(req, hits):
     return sorted(set(confirmed))
 
 
-LOCATIONS_ATTRERROR = re.compile(r"^AttributeError: '\w+Grpc(AsyncIO)?Transport' object has no attribute 'list_locations'")
+def pb2_request_http_methods(files):
+    """snake-case names of the methods with an http rule whose REQUEST is a message of another package (a plain pb2 class, no
+    proto-plus wrapper) — the trigger of finding `ads-rest-pb2-request-positional`, decided from the descriptors"""
+    from google.api import annotations_pb2
+    from gapic.utils import to_snake_case
+    out = set()
+    for f in files:
+        pb = f.pb if hasattr(f, "pb") else f
+        for svc in pb.service:
+            for m in svc.method:
+                rule = m.options.Extensions[annotations_pb2.http]
+                if rule.WhichOneof("pattern") and not m.input_type.startswith(f".{pb.package}."):
+                    out.add(to_snake_case(m.name))
+    return out
+
+
 ASYNC_REST_NAMEERROR = re.compile(r"^NameError: name '\w+AsyncClient' is not defined")
 
 
@@ -411,20 +452,18 @@ def judge(ctx, case, out):
                      f"{len(known)} of {out['total']} emitted tests fail with NameError on the AsyncClient, e.g. {known[:2]}",
                      {**payload, "failing": sorted(set(norm_test(n) for n, _ in known))[:20]})
             bad = [x for x in bad if x not in known]
-        # known finding `locations-mixin-get-without-list`: trigger = Locations declared with GetLocation bound and ListLocations NOT
-        # bound, grpc among the transports (default templates); symptom = test_get_location_from_dict[_async] failing with
-        # AttributeError on the transport's missing `list_locations` (the emitted test patches the wrong stub).  Only those tests.
-        trig_loc = ("locations" in case["mixins"] and not case.get("ads")
-                    and "GetLocation" in mixin_rule_names(case, "locations") and "ListLocations" not in mixin_rule_names(case, "locations")
-                    and any(o.startswith("transport=") and "grpc" in o for o in case["opts"]))
-        known_loc = [(n, m) for n, m in bad if trig_loc and norm_test(n) in ("test_get_location_from_dict", "test_get_location_from_dict_async")
-                     and LOCATIONS_ATTRERROR.match(m or "")]
-        if known_loc:
-            ctx.fail("emitted-tests-fail:locations-mixin-get-without-list",
-                     f"{len(known_loc)} of {out['total']} emitted tests fail: {known_loc[:2]}",
-                     {**payload, "failing": sorted(set(norm_test(n) for n, _ in known_loc))})
-            bad = [x for x in bad if x not in known_loc]
-            known = known + known_loc
+        # known finding `ads-rest-pb2-request-positional`: trigger = ads templates, rest among the transports, a method with an http
+        # rule whose request is another package's pb2 message; symptom = THAT method's `test_<m>_rest` / `test_<m>_rest_bad_request`
+        # failing with protobuf's "No positional arguments allowed" (the ads test template builds `request_type(request_init)`).
+        if case.get("ads") and any(o.startswith("transport=") and "rest" in o for o in case["opts"]):
+            trig_tests = {f"test_{m}_rest{sfx}" for m in pb2_request_http_methods(build_files(case)) for sfx in ("", "_bad_request")}
+            known_pos = [(n, m) for n, m in bad if norm_test(n) in trig_tests and (m or "").startswith("TypeError: No positional arguments allowed")]
+            if known_pos:
+                ctx.fail("emitted-tests-fail:ads-rest-pb2-request-positional",
+                         f"{len(known_pos)} of {out['total']} emitted tests fail: {known_pos[:2]}",
+                         {**payload, "failing": sorted(set(norm_test(n) for n, _ in known_pos))})
+                bad = [x for x in bad if x not in known_pos]
+                known = known + known_pos
         if bad or (out["rc"] != 0 and not known):
             names = sorted(set(norm_test(n) for n, _ in bad))
             ctx.fail("emitted-tests-fail:" + (names[0] if names else "collection"),
@@ -862,8 +901,13 @@ CORPUS = [
      "mixin_rules": {"iam": ["GetIamPolicy", "SetIamPolicy"], "locations": ["ListLocations"], "operations": ["CancelOperation", "GetOperation"]}},
     {"features": ["server_stream"], "opts": ["transport=grpc"], "mixins": ["iam", "locations"], "ads": False, "mixin_rules": {"iam": ["GetIamPolicy"], "locations": []}},
     {"features": ["paged_map"], "opts": ["transport=rest"], "mixins": ["iam", "operations"], "ads": False, "mixin_rules": {"iam": [], "operations": ["ListOperations"]}},
-    # open finding (corpus/C13/locations_get_without_list.json): GetLocation bound, ListLocations not, grpc transport
+    # regression input of the repaired finding (fix 23a0705; corpus/C13/locations_get_without_list.json): GetLocation bound, ListLocations not
     {"features": ["delete_void"], "opts": ["transport=grpc+rest"], "mixins": ["locations"], "ads": False, "mixin_rules": {"locations": ["GetLocation"]}},
+    # round 10: request / response of different flavour, over rest and grpc+rest
+    {"features": ["pb2_response", "pb2_request", "required_scalars_query"], "opts": ["transport=grpc+rest"], "mixins": [], "ads": False},
+    {"features": ["pb2_response", "pb2_request", "delete_void"], "opts": ["transport=rest", "rest-numeric-enums"], "mixins": ["iam"], "ads": False},
+    # open finding (corpus/C13/ads_rest_pb2_request.json): ads templates + REST + a pb2 request
+    {"features": ["pb2_request", "pb2_response"], "opts": ["transport=grpc+rest", "python-gapic-templates=ads-templates", "old-naming"], "mixins": [], "ads": True},
     # the same tree with the map in second position is part of the profile; naming overrides
     {"features": ["tree_map", "wkt_flattened", "second_file", "nested_enum", "enum_late_nonzero", "lro_empty"],
      "opts": ["transport=grpc+rest", "python-gapic-namespace=Acme", "python-gapic-name=libra", "warehouse-package-name=acme-libra"], "mixins": [], "ads": False},
